@@ -153,9 +153,9 @@ Proof.
 Qed.
 
 Lemma gqrs_coeff_pos kind pid : 0 < gqrs_coeff kind pid.
-Proof. unfold gqrs_coeff. destruct (pid >? 0)%Z; destruct (kind =? 1)%Z; interval. Qed.
+Proof. unfold gqrs_coeff. destruct (pid >? 0)%Z; destruct (kind =? 1)%Z; lra. Qed.
 Lemma gqrs_total_coeff_pos pid : 0 < gqrs_total_coeff pid.
-Proof. unfold gqrs_total_coeff. destruct (pid >? 0)%Z; interval. Qed.
+Proof. unfold gqrs_total_coeff. destruct (pid >? 0)%Z; lra. Qed.
 
 Lemma gqrs_sigma_pos kind pid E : 0 < gqrs_sigma kind pid E.
 Proof. unfold gqrs_sigma. apply Rmult_lt_0_compat; [apply gqrs_coeff_pos|apply Rpower_pos]. Qed.
@@ -198,7 +198,7 @@ Qed.
 Lemma avogadro_value : avogadro = 6.02214076e23.
 Proof. reflexivity. Qed.
 Lemma avogadro_pos : 0 < avogadro.
-Proof. unfold avogadro. interval. Qed.
+Proof. unfold avogadro. lra. Qed.
 
 (* ------------------------------------------------------------------ shower fractions *)
 Definition is_electron (pid : Z) : bool := ((pid =? 12)%Z || (pid =? -12)%Z)%bool.
